@@ -129,6 +129,9 @@ impl<Meta> Archive<Meta> {
             return Err(ArchiveError::Corrupt("invalid magic").into())
         }
         let meta = ArchiveMeta::read(&mut file)?;
+        if meta.bucket_count == 0 {
+            return Err(ArchiveError::Corrupt("no hash buckets").into())
+        }
 
         Ok(Self {
             file: Storage::new(file, writable)?,
